@@ -740,7 +740,12 @@ impl LZDiff {
 
     /// Check if byte is a literal
     fn is_literal(&self, c: u8) -> bool {
-        (b'A'..=b'A' + 20).contains(&c) || c == b'!'
+        // Every literal the encoder can emit is `b'A' + code`. Codes in use: 0..=15 (IUPAC),
+        // 30 (letters outside the IUPAC set) and 32 (CNV_NUM filler for a stray '`'). 32 is the
+        // largest code that can be accepted: code 33 would decode to b'!', the "copy from the
+        // reference" marker. Literal bytes (65..=97) do not overlap match tokens (digits, '-',
+        // ',', '.') or the N-run starter (30).
+        (b'A'..=b'A' + 32).contains(&c) || c == b'!'
     }
 
     /// Decode a literal
